@@ -47,9 +47,17 @@ def _plan(draw, max_rows):
         n = draw(st.one_of(st.integers(17, 40), st.integers(17, 40), st.sampled_from(gen.BIG_SIZES), st.sampled_from(gen.HUGE_SIZES[:3])))
         nk = 1
     cols = []
+    intkeys = not big and draw(st.integers(0, 11)) == 0
+    if intkeys:
+        # two or three integer group columns whose value ranges are huge (0 and 2**53 side by side): whatever packs the
+        # columns into one number overflows, and distinct combinations must still be distinct groups
+        nk = draw(st.sampled_from([2, 2, 3]))
     for j in range(nk):
         kind = draw(st.sampled_from(KEY_KINDS))
         mode = "tight" if big else draw(st.sampled_from(["tight", "tight", "tight", "pool", "twins"]))
+        if intkeys:
+            cols.append({"name": f"g{j}", "kind": "i", "vals": [draw(st.sampled_from([0, 1, -1, 2**53, -2**53, 2**53 + 1, 2**60])) for _ in range(n)]})
+            continue
         vals = draw(gen.big_values(kind, n)) if n > 40 else draw(gen.values(kind, n, mode=mode, na="none" if big else None))
         cols.append({"name": f"g{j}", "kind": kind, "vals": vals})
     if n > 40:
